@@ -2,6 +2,7 @@ package checks
 
 import (
 	"fmt"
+	"os"
 	"strings"
 	"time"
 
@@ -474,6 +475,10 @@ func runC07(c *core.Ctx) {
 	c.SetRule("BFS over connection/logon/logout/reset event sequences on a real session for each (reset-flag combination, role, BeginString, initial counters); reference counter model compared after every event; file-store variant adds engine restarts; ResetSeqTime configurations add the event that the daily reset time passes between two ticks of the run loop")
 	c.Assume("Logon with ResetSeqNumFlag=Y and MsgSeqNum != 1 is outside the statement's domain", "absolute state keys (initial counters are part of the configuration)",
 		"Logout timeout without reply is not judged")
+	if os.Getenv("C07_STANDBY_ONLY") != "" { // development aid
+		c07Standby(c)
+		return
+	}
 	cfgs := c07Configs(c.Quick())
 	c.Set("configurations", len(cfgs))
 	for _, cfg := range cfgs {
@@ -514,6 +519,8 @@ func runC07(c *core.Ctx) {
 			runSearch(c, sp)
 		}
 	}
+	// RefreshOnLogon with another process using the persistent store between two connections
+	c07Standby(c)
 	runConformance(c)
 	c.Set("depth", depth)
 }
